@@ -420,6 +420,14 @@ func genC09Plan(r *zsim.Rng) *sysPlan {
 		}
 		if r.Chance(1, 2) {
 			p.Tail = []int{1, 2, 3, r.Range(1, n), r.Range(1, maxInt(1, n/2))}[r.Intn(5)]
+			if s0 := p.Stages[0]; s0 > 0 && r.Chance(1, 2) {
+				// aim at the boundary: the window after the last stage still holds some of the records
+				// that were listed (and possibly selected) during the first one
+				p.Tail = r.Range(n-s0+1, n)
+			}
+		}
+		if r.Chance(1, 2) {
+			p.Multi = -1
 		}
 		p.HoldOpen = r.Chance(1, 3)
 	}
